@@ -6,6 +6,8 @@ instantiations are always present (4-limb unrolled multiply, single-bit-over-lim
 signed = first multi-limb width); the rest of the grid is drawn from the seed.  Instantiations with >= 129 limbs
 (Karatsuba multiplication; 8-bit limbs only inside the 65..2048-digit range) have their own TUs (`go_kara`, dense
 operands): always 2048 bits unsigned and 1568 bits (odd level 49: schoolbook since 38967ec), plus one drawn from the seed.
+C10M.h: built-in operands on either side of a multi-limb wide_integer, shift counts of every built-in type (`go_mix`),
+decimal text at tight digit counts (`go_text`) — `tus_mix`.
 """
 import random
 
@@ -113,6 +115,50 @@ BUILTIN = [(65, 'i8'), (96, 'u16'), (127, 'i8'), (128, 'u8'), (127, 'i64'), (128
            (32, 'i32'), (20, 'i8'), (8, 'u8'), (7, 'i8'), (63, 'i16'), (64, 'i16'), (100, 'i32'), (100, 'u32')]
 
 
+# built-in operand on either side of a multi-limb wide_integer (go_mix) and shift counts of every built-in type:
+# every limb width, both signednesses, a width where the signed result type needs one limb more than the unsigned
+# operand (224/u32, 256/u64), 8-bit limbs with more than 128 and more than 256 bits; one more drawn from the seed
+MIX_FIXED = [(200, 'i32'), (224, 'u32'), (130, 'i64'), (191, 'i8'), (192, 'u16'), (300, 'u64')]
+MIX_THOROUGH = [(200, 'u32'), (320, 'u8'), (128, 'i8'), (129, 'u8'), (255, 'i16'), (256, 'u64'), (1000, 'i32'), (1024, 'u32'), (129, 'i64'), (512, 'i16'), (2047, 'i64')]
+
+# decimal text where the length estimate Digits*log10(2) is within 0.02 of an integer (2^Digits just above / just below
+# a power of ten): the widths at which an estimate of the number of characters is first off by one
+TIGHT = [176, 186, 196, 206, 279, 289, 299, 309, 372, 382, 392, 402, 475, 485, 495, 568, 578, 588, 598, 661, 671, 681, 691,
+         764, 774, 784, 794, 857, 867, 877, 887, 960, 970, 980, 990, 1053, 1063, 1073, 1083, 1146, 1156, 1166, 1176, 1249,
+         1259, 1269, 1279, 1342, 1352, 1362, 1372, 1445, 1455, 1465, 1475, 1538, 1548, 1558, 1568, 1641, 1651, 1661, 1734,
+         1744, 1754, 1764, 1827, 1837, 1847, 1857, 1930, 1940, 1950, 1960, 2023, 2033, 2043]
+TEXT_FIXED = [(196, 'i32'), (196, 'u64'), (299, 'i64'), (392, 'i16'), (186, 'i8'), (289, 'i32'), (588, 'i64'), (206, 'u16')]
+TEXT_THOROUGH = [(495, 'i32'), (598, 'i32'), (681, 'i64'), (200, 'i32'), (176, 'i64'), (279, 'i16'), (309, 'i8')]
+
+
+def tus_mix(tier, seed, hdr):
+    rnd = random.Random(seed * 15485863 + 1012)
+    res = []
+    combos = list(MIX_FIXED) + (MIX_THOROUGH if tier == 'thorough' else [])
+    pool = [(d, t) for t in CT for d in WIDTHS if instantiable(d, t) and (d, t) not in combos]
+    combos += rnd.sample(pool, 1 if tier == 'quick' else 6)
+    for d, t in combos:
+        assert instantiable(d, t), (d, t)
+        body = hdr + 'int main(){ install(); Rng rng(seed_from_env()*1000003ull+%d);\n' % (d * 139 + BITS[t] + (7 if t[0] == 'i' else 0))
+        body += '  go_mix<wide_integer<%d, %s>, 7>(rng);\n}\n' % (d, CT[t])
+        res.append(dict(name='C10_mix_%d_%s' % (d, t), src=body, compiler='g++', run_timeout=1500))
+    if tier == 'thorough':
+        for d, t in combos[::4]:
+            res.append(dict(res[combos.index((d, t))], name='C10_mix_%d_%s_clang' % (d, t), compiler='clang++'))
+    text = list(TEXT_FIXED) + (TEXT_THOROUGH if tier == 'thorough' else [])
+    tpool = [(d, t) for d in TIGHT for t in CT if instantiable(d, t) and (d, t) not in text and storage(d, t)[1] < THRESHOLD]
+    text += rnd.sample(tpool, 2 if tier == 'quick' else 40)
+    per = 5
+    for i in range(0, len(text), per):
+        body = hdr + 'int main(){ install(); Rng rng(seed_from_env()*1000003ull+%d);\n' % (1900 + i)
+        for d, t in text[i:i + per]:
+            assert instantiable(d, t), (d, t)
+            body += '  go_text<wide_integer<%d, %s>>(rng);\n' % (d, CT[t])
+        body += '}\n'
+        res.append(dict(name='C10_text_%d' % (i // per), src=body, compiler='g++', run_timeout=1500))
+    return res
+
+
 import os as _os, importlib.util as _ilu
 _s = _ilu.spec_from_file_location('C10F', _os.path.join(_os.path.dirname(__file__), 'C10F.py'))
 C10F = _ilu.module_from_spec(_s); _s.loader.exec_module(C10F)
@@ -143,6 +189,7 @@ def tus(tier, seed):
     body += '}\n'
     res.append(dict(name='C10_storage', src=body, compiler='g++'))
     res += C10F.tus_float(tier, seed)
+    res += tus_mix(tier, seed, hdr.replace('C10.h', 'C10M.h'))
     # comparisons between wide_integers of different widths (lines of the C03 table `wcmpt`, by-value oracle):
     # the wider operand on either side, every limb width
     whdr = _os.path.join(_os.path.dirname(_os.path.abspath(__file__)), 'C03w.h')
@@ -162,14 +209,23 @@ RULE = ("per compiled wide_integer<Digits, Narrowest>: corner values (0, 1, -1, 
         "1..n limbs with top limb ~0 / 1 / 1000.. / 0111.. against numerators q*b, q*b-1, q*b+r and add-back shapes; shift counts "
         "{0,1,w-1,w,w+1,N-1,...,>=N,<0}; >= 129-limb instantiations (8-bit limbs, 1056..2048 bits: Karatsuba) get dense "
         "operands (random limbs, all-ones, 0xFE../0xF0../0xCC.. runs over the width, half, three quarters, equal halves) "
-        "cross-multiplied, in the quick tier too (2048 bits, 1568 bits = odd level, one width by seed); non-trivial = the property constrains the result (divisor non-zero, 0 <= shift < N); " + C10F.RULE_FLOAT)
+        "cross-multiplied, in the quick tier too (2048 bits, 1568 bits = odd level, one width by seed); "
+        "a built-in operand of every type (8..128 bits, signed and unsigned; lowest, lowest+1, max, 0, +-1, +-3, +-10, max/2+1, random) on "
+        "either side of + - * / % & and the six comparisons against wide operands 0, +-1, max, lowest, 10, -2, +-3, +-2^31, +-2^63, +-2^127, random "
+        "(result type observed) for every limb width and signedness incl. a width where the signed result type needs one more limb (224/u32); "
+        "shift counts of every built-in type (8-bit count types up to 127 / 255, counts 126..130, 254..256, N-1, N, negative); "
+        "decimal text at digit counts where Digits*log10(2) is within 0.02 of an integer (196, 299, 392, 186, 289, 588, 206 + 2 by seed): "
+        "max, max-1, +-10^k, 10^k-1, max/10, lowest, lowest+1, random values with the maximum number of digits, through operator<<, "
+        "to_chars_static, cnl::to_chars into buffers of the exact length / one short / the static capacity / 0 / 1, and to_chars_capacity; non-trivial = the property constrains the result (divisor non-zero, 0 <= shift < N); " + C10F.RULE_FLOAT)
 TRUSTED = ["harness reads limbs through uintwide_t::crepresentation() and writes them through representation()",
            "Karatsuba multiplication (>= 129 limbs) is transcribed with its in-place memory (Cnl.Wide.kara), compared limb for "
            "limb and proved exact for all widths/limb counts/initial array contents (karatsuba_correct); the model follows "
            "/repo 38967ec (schoolbook for odd limb counts)"]
 ASSUMPTIONS = ["N is the storage width (limb width x limb count), e.g. wide_integer<200,int> is a 224-bit integer",
                "multi-limb wide_integer has no operator~ and no mixed-signedness or mixed-width multi-limb operators (do not compile): outside the quantifier",
+               "built-in operand next to a multi-limb wide_integer: | ^ and a wide shift count do not compile; + - * / % & do not compile when Narrowest is an 8/16-bit type of the other signedness; comparisons compile only for built-in types at least as wide as Narrowest other than (unsigned) long long: outside the quantifier",
+               "open findings (findings/C10.json), modelled exactly and judged by the oracle: C10.signed_builtin_unsigned_wide (a signed built-in operand next to an UNSIGNED multi-limb wide_integer is computed in the unsigned format and reinterpreted / zero-extended in the signed result type) and C10.mod_small_unsigned_builtin_negative_dividend (negative wide % unsigned built-in no wider than a limb returns 2^w - |rem|); the same overload divides by zero (UB) for a zero divisor, which the property does not constrain",
                "numeric_limits<wide_integer>::min() returns 1 (library-wide convention, also elastic_integer): modelled, not constrained",
-               "cnl::to_chars on an unsigned multi-limb wide_integer does not compile (no mixed-signedness operator-): only signed instances are observed through to_chars, both through operator<<",
+               "cnl::to_chars on an unsigned multi-limb wide_integer does not compile (no mixed-signedness operator-): only signed instances are observed through to_chars, both through operator<<; to_chars / to_chars_static are observed on [lowest(), max()] of numeric_limits (the capacity is sized for Digits, not for the storage width)",
                "division by zero returns numeric_limits::max() (quotient) / 0 (remainder) without trapping, shifts by counts outside [0, N) fill with zeros or the sign: modelled, not constrained by the property",
                ] + (C10F.ASSUMPTIONS_FLOAT if isinstance(C10F.ASSUMPTIONS_FLOAT, list) else [C10F.ASSUMPTIONS_FLOAT])
